@@ -359,6 +359,11 @@ def run(ctx, out, tier):
         _detect_once(ctx, out, _dv, rule="C07.detect")
     else:
         out.inst("C07.detect", 0, 4)
+    # what a validator found is only reported if the report keeps every violation (shared with C11)
+    from rules.C11 import check_items as _check_items
+    shared.run_renamed(out, lambda o: _check_items(ctx, o), "C11", "C07")
+    from rules.shared import check_detect_cases
+    check_detect_cases(ctx, out, ["keep-unique"], rule="C07.detectcase")
     from rules.C10 import check_line_base
     check_line_base(ctx, out, "keep-unique", "C07.line", index_by_model=decided is not None)
     shared.sh_flags(ctx, out, "keep-unique", "C07.flags")
